@@ -1,12 +1,14 @@
 package props
 
 import (
+	"strings"
 	"encoding/json"
 	"fmt"
 
 	dtpb "github.com/google/fhir/go/proto/google/fhir/proto/r4/core/datatypes_go_proto"
 	ppb "github.com/google/fhir/go/proto/google/fhir/proto/r4/core/resources/patient_go_proto"
 	"github.com/verily-src/fhirpath-go/fhirpath"
+	"github.com/verily-src/fhirpath-go/fhirpath/compopts"
 	"github.com/verily-src/fhirpath-go/fhirpath/evalopts"
 	"github.com/verily-src/fhirpath-go/fhirpath/system"
 	"github.com/verily-src/fhirpath-go/fhirpath/verifharness/core"
@@ -29,7 +31,7 @@ func init() {
 		Checks: map[string]func(*core.Env, []json.RawMessage){"prog": replayC06, "gen": replayC06Gen},
 		Threshold: func(m *core.Merged) []string {
 			var r []string
-			for _, k := range []string{"binop", "not", "iif", "where", "exists", "all", "asbool", "demorgan", "implies-law", "both-rooted", "generated-resource", "env-operands", "gen-form:T", "gen-form:F", "gen-form:N", "gen-form:M", "gen-form:E"} {
+			for _, k := range []string{"binop", "not", "iif", "where", "exists", "all", "asbool", "demorgan", "implies-law", "both-rooted", "generated-resource", "env-operands", "criteria-item-order", "permissive-commutative", "gen-form:T", "gen-form:F", "gen-form:N", "gen-form:M", "gen-form:E"} {
 				if m.Cover[k] == 0 {
 					r = append(r, "never observed: "+k)
 				}
@@ -283,6 +285,60 @@ func runC06(env *core.Env) {
 			}
 		}
 	}
+	// criteria over collections whose items give different criterion classes, in both orders: the singleton rule
+	// applies to every item, whichever item comes first
+	one := &dtpb.HumanName{Family: &dtpb.String{Value: "One"}, Given: []*dtpb.String{{Value: "a"}}}
+	two := &dtpb.HumanName{Family: &dtpb.String{Value: "Two"}, Given: []*dtpb.String{{Value: "a"}, {Value: "b"}}}
+	none := &dtpb.HumanName{Family: &dtpb.String{Value: "None"}}
+	for _, c := range []struct {
+		name string
+		coll system.Collection
+		crit string
+		want map[string]string // function -> expected
+	}{
+		// (an implementation may stop at the item that decides exists() / all(): both outcomes are accepted there)
+		{"T,M", system.Collection{one, two}, "given", map[string]string{"where": "ERR", "exists": "ERR|T", "all": "ERR"}},
+		{"M,T", system.Collection{two, one}, "given", map[string]string{"where": "ERR", "exists": "ERR", "all": "ERR"}},
+		{"E,M", system.Collection{none, two}, "given", map[string]string{"where": "ERR", "exists": "ERR", "all": "ERR|F"}},
+		{"T,E", system.Collection{one, none}, "given", map[string]string{"where": "T", "exists": "T", "all": "F"}},
+		{"E,T", system.Collection{none, one}, "given", map[string]string{"where": "T", "exists": "T", "all": "F"}},
+		{"T,T", system.Collection{one, one}, "given", map[string]string{"where": "T", "exists": "T", "all": "T"}},
+		{"E,E", system.Collection{none, none}, "given", map[string]string{"where": "F", "exists": "F", "all": "F"}},
+		{"F,M", system.Collection{one, two}, "given.count() > 5 and given", map[string]string{"where": "ERR", "exists": "ERR", "all": "ERR|F"}},
+	} {
+		n++
+		if !env.Mine(n) {
+			continue
+		}
+		eo := []fhirpath.EvaluateOption{evalopts.EnvVariable("ord", c.coll)}
+		c06EnvProg(env, "criteria-order-where", "%ord.where("+c.crit+").exists()", c.want["where"], eo)
+		c06EnvProg(env, "criteria-order-exists", "%ord.exists("+c.crit+")", c.want["exists"], eo)
+		c06EnvProg(env, "criteria-order-all", "%ord.all("+c.crit+")", c.want["all"], eo)
+		env.Cover("criteria-item-order")
+	}
+	// commutativity also holds when the expression is compiled with the (deprecated) Permissive option: whatever
+	// that option changes about navigation, it changes for both operands alike
+	in0, eo0 := c06Inputs()
+	for _, a := range forms {
+		for _, b := range forms {
+			n++
+			if !env.Mine(n) {
+				continue
+			}
+			for _, op := range []string{"and", "or", "xor"} {
+				l := fx.EvalK(env, "permissive", a.Src+" "+op+" "+b.Src, in0, []fhirpath.CompileOption{compopts.Permissive()}, eo0)
+				r := fx.EvalK(env, "permissive", b.Src+" "+op+" "+a.Src, in0, []fhirpath.CompileOption{compopts.Permissive()}, eo0)
+				env.Case()
+				env.Cover("permissive-commutative")
+				if l.IsPanic() || r.IsPanic() {
+					continue // totality under options belongs to C01
+				}
+				if obs3(l) != obs3(r) {
+					env.Violatef("C06/commutative/permissive/"+op, "compiled with compopts.Permissive(): `%s %s %s` = %s but `%s %s %s` = %s", a.Src, op, b.Src, obs3(l), b.Src, op, a.Src, obs3(r))
+				}
+			}
+		}
+	}
 	// member-based criteria on the resource (FHIR element operands inside criteria)
 	for _, c := range []struct{ src, want string }{
 		{"Patient.where(active).exists()", "T"}, {"Patient.communication.where(preferred).count() = 1", "T"}, {"Patient.communication.all(preferred)", "F"},
@@ -403,7 +459,13 @@ func c06EnvProg(env *core.Env, kind, src, want string, eo []fhirpath.EvaluateOpt
 	r := fx.Eval(env, src, nil, nil, eo)
 	env.Case()
 	got := obs3(r)
-	if got != want {
+	okAny := false
+	for _, w := range strings.Split(want, "|") {
+		if got == w {
+			okAny = true
+		}
+	}
+	if !okAny {
 		if r.IsPanic() {
 			env.Violatef(fx.PanicSig("C06", r), "`%s` => %s", src, r.Short())
 		} else {
